@@ -137,6 +137,15 @@ package language
 // ---- C10 / C14: internal item -> evaluator object, binary payloads ---------------------------------
 // The evaluator works on its own copy of a binary value: what an update expression stores can never be the caller's
 // byte slice (the copy made here is the only isolation on the UpdateItem path - the client mappers pass B through).
+// C10, scalars: BOOL becomes the shared truth object of its value, N the number strconv.ParseFloat reads (parseFloat:
+// uninterpreted), S the string, NULL a defined null
+//@ func MapToObject
+//@   partial
+//@   requires val != nil
+//@   ensures[C10] val.BOOL != nil ==> result1 == nil && Truth(result0, *val.BOOL)
+//@   ensures[C10] val.BOOL == nil && val.N != nil ==> typeis(result0, "*Number") && fresh(result0.(*Number)) && result0.(*Number).Value == parseFloat(*val.N)
+//@   ensures[C10] val.BOOL == nil && val.N == nil && val.S != nil ==> result1 == nil && typeis(result0, "*String") && fresh(result0.(*String)) && result0.(*String).Value == *val.S
+//@   ensures[C10] val.BOOL == nil && val.N == nil && val.S == nil && val.NULL != nil && *val.NULL ==> result1 == nil && typeis(result0, "*Null") && fresh(result0.(*Null)) && !result0.(*Null).IsUndefined
 //@ func mapComplexAttributeToObject
 //@   partial
 //@   requires val != nil
@@ -259,12 +268,24 @@ package language
 
 // ---- C14 / C07: evaluator object -> internal item -------------------------------------------------------------
 // Converting an object writes nothing that existed before (no modifies clause: frame obligations on every heap).
+// C10, scalars: the item carries exactly the member of the object's kind, with the object's value; a number is rendered
+// by strconv.FormatFloat(v, 'f', -1, 64) and by nothing else (formatFloat: uninterpreted)
+//@ pred OnlyN(it types.Item) := it.S == nil && it.BOOL == nil && it.NULL == nil && len(it.B) == 0 && it.M == nil && it.L == nil && it.SS == nil && it.NS == nil && it.BS == nil
+//@ pred OnlyS(it types.Item) := it.N == nil && it.BOOL == nil && it.NULL == nil && len(it.B) == 0 && it.M == nil && it.L == nil && it.SS == nil && it.NS == nil && it.BS == nil
+//@ pred OnlyBOOL(it types.Item) := it.N == nil && it.S == nil && it.NULL == nil && len(it.B) == 0 && it.M == nil && it.L == nil && it.SS == nil && it.NS == nil && it.BS == nil
+//@ pred OnlyNULL(it types.Item) := it.N == nil && it.S == nil && it.BOOL == nil && len(it.B) == 0 && it.M == nil && it.L == nil && it.SS == nil && it.NS == nil && it.BS == nil
+//@ func numToString
+//@   ensures[C10] result == formatFloat(v)
 //@ func (*Number).ToDynamoDB
+//@   ensures[C10] result.N != nil && *result.N == formatFloat(i.Value) && OnlyN(result)
 //@ func (*Boolean).ToDynamoDB
+//@   ensures[C10] result.BOOL != nil && *result.BOOL == b.Value && OnlyBOOL(result)
 //@ func (*Binary).ToDynamoDB
 //@ func (*Null).ToDynamoDB
+//@   ensures[C10] result.NULL != nil && *result.NULL && OnlyNULL(result)
 //@ func (*Error).ToDynamoDB
 //@ func (*String).ToDynamoDB
+//@   ensures[C10] result.S != nil && *result.S == s.Value && OnlyS(result)
 //@ func (*Map).ToDynamoDB
 //@ func (*List).ToDynamoDB
 //@   loop 1:
@@ -298,6 +319,9 @@ package language
 //@ func evalUpdateExpression
 //@   partial
 //@   requires env != nil && env.store != nil
+// every action is evaluated: a result that is not an error is the shared UNDEFINED object and is produced only after the
+// loop over the actions ran to completion
+//@   ensures[C07] !typeis(result, "*Error") ==> exited(1) && typeis(result, "*Null") && result.(*Null) == UNDEFINED
 //@   callsite[C07] evalAction: arg.env == env && 0 <= rangeindex + 1 && rangeindex + 1 < len(node.Expressions) && typeis(node.Expressions[rangeindex + 1], "*ActionExpression") && arg.node == node.Expressions[rangeindex + 1].(*ActionExpression)
 
 //@ func evalAction
@@ -370,6 +394,11 @@ package language
 //@ func equalObject
 //@   requires left != nil && right != nil
 //@   bodyensures[C06] tag(left) == tag(right) ==> result == deepEqual(left, right)
+// scalars are equal exactly when their values are (for the flat records DeepEqual is spelled out from the declared
+// fields, so a field added to Number, String, Boolean or Null becomes part of this obligation)
+//@   bodyensures[C06] typeis(left, "*Number") && typeis(right, "*Number") ==> result == (left.(*Number) == right.(*Number) || left.(*Number).Value == right.(*Number).Value)
+//@   bodyensures[C06] typeis(left, "*String") && typeis(right, "*String") ==> result == (left.(*String) == right.(*String) || left.(*String).Value == right.(*String).Value)
+//@   bodyensures[C06] typeis(left, "*Boolean") && typeis(right, "*Boolean") ==> result == (left.(*Boolean) == right.(*Boolean) || left.(*Boolean).Value == right.(*Boolean).Value)
 
 // C09: which bytes can be part of a name - ASCII letters, digits and the characters of the especialChars table; every
 // other byte (in particular every byte >= 0x80) is an unknown character and becomes an ILLEGAL token
